@@ -169,11 +169,6 @@ func (r FileReplacer) Replace(d data.Data, cl Changelog) (*ast.File, error) {
 		file.Name.Name = r.Package
 	}
 
-	newImports, err := r.Imports.Replace(d, cl, file)
-	if err != nil {
-		return nil, err
-	}
-
 	// Matches were recorded in pre-order: a match comes before the matches
 	// inside it. Replace in reverse so that a nested match is replaced before
 	// the match around it reproduces the code it sits in; otherwise the
@@ -202,6 +197,15 @@ func (r FileReplacer) Replace(d data.Data, cl Changelog) (*ast.File, error) {
 		if give.Type().AssignableTo(v.Type()) {
 			v.Set(give)
 		}
+	}
+
+	// Imports are added only after the matched nodes have been replaced:
+	// adding the first import of a file inserts a declaration at the front
+	// of file.Decls, which would invalidate the index recorded for a matched
+	// top-level declaration.
+	newImports, err := r.Imports.Replace(d, cl, file)
+	if err != nil {
+		return nil, err
 	}
 
 	err = r.Imports.Cleanup(d, file, newImports)
